@@ -2,6 +2,8 @@ import AGV.Util.Sexp
 import AGV.Util.Judge
 import AGV.Model.Sdl
 import AGV.Spec.SdlParse
+import AGV.Model.RustTy
+import AGV.Spec.RustTy
 
 open AGV AGV.Sexp AGV.Core AGV.Core.PAst AGV.Core.Sdl
 
@@ -117,11 +119,41 @@ def opts : Sexp → Option Opts
     w.toNat?.map (fun w => ⟨a = "true", b = "true", c = "true", d = "true", e = "true", f = "true", g = "true", h = "true", w⟩)
   | _ => none
 
+-- ------------------------------------------------------------------ declared Rust types on the wire
+
+/-- the finding about `Box<T>` / `Arc<T>` / `&T` inside a list (Model/RustTy.lean) -/
+def ptrFinding : String := "C17-list-of-pointer-to-option-non-null"
+
+def rtyDefects (ids : List String) : AGV.Model.RustTy.Defects :=
+  { ptrQualifiedDefault := ids.contains ptrFinding }
+
+/-- An `iv` / `f` node of a derive-built schema may end with the declared Rust type
+    (`(iv "n" A "type" DEFAULT RTY)`, `(f "n" A "type" (IV…) RTY)`).  The hand-written GraphQL
+    type must be what the specification makes of that Rust type (`Spec.RustTy.ptype`); the node is
+    rewritten to the plain form carrying the type the crate's `type_name` /
+    `qualified_type_name` / `create_type_info` (with the toggles `D`) register for it. -/
+partial def rewriteRty (D : AGV.Model.RustTy.Defects) : Sexp → Except String Sexp
+  | .list [.atom "iv", n, a, .str ty, dv, r] => do
+    pure (.list [.atom "iv", n, a, .str (← regTy ty r), dv])
+  | .list [.atom "f", n, a, .str ty, .list args, r] => do
+    let args ← args.mapM (rewriteRty D)
+    pure (.list [.atom "f", n, a, .str (← regTy ty r), .list args])
+  | .list xs => do pure (.list (← xs.mapM (rewriteRty D)))
+  | x => pure x
+where
+  regTy (ty : List Char) (r : Sexp) : Except String (List Char) :=
+    match AGV.Core.RustTy.decode? r with
+    | none => .error "bad-rust-type"
+    | some t =>
+      if parseTy (ty.length + 1) ty = some (AGV.Spec.RustTy.ptype t) then
+        .ok (typeText (AGV.Model.RustTy.toP (AGV.Model.RustTy.created D t)))
+      else .error ("declared-type-is-not-what-the-rust-type-means: " ++ String.ofList ty)
+
 def findingIds : List String :=
   ["C17-deprecation-reason-quote", "C17-description-single-line-escapes", "C17-description-block-lossy",
    "C17-tag-url-escapes", "C17-interface-directives-before-implements", "C17-dynamic-interface-implements-dropped",
    "C17-dynamic-input-field-attrs", "C17-extend-with-description", "C17-compose-url-escape",
-   "C17-federation-scalar-any-dropped", "C17-federation-fields-dropped-everywhere"]
+   "C17-federation-scalar-any-dropped", "C17-federation-fields-dropped-everywhere", ptrFinding]
 
 def parserFinding : String := "C17-parser-directive-always-repeatable"
 
@@ -163,16 +195,21 @@ def groupOrders (S : Schema) (o : Opts) : List (List (Text × List Text) × List
   else [(gm, gs)]
 
 /-- verdict for one option set: 0 OK, 1 TIE, 2 KNOWN id, 3 VIOL -/
-def judgeOne (known : List String) (k : Kind) (S : Schema) (o : Opts) (implSdl : Text) (crate : Sexp) : Nat × String × String × String :=
+def judgeOne (known : List String) (k : Kind) (S : Schema) (Sof : List String → Schema) (o : Opts) (implSdl : Text) (crate : Sexp) : Nat × String × String × String :=
+  -- `S`: the schema the declarations mean (specification side); `Sof ids`: what the crate registers
+  -- for them with the listed findings `ids` still in the tree (model side; `= S` unless a finding
+  -- about registration is listed)
+  let runG := fun (D : Defects) (k : Kind) (ids : List String) (o : Opts) (g : List (Text × List Text)) =>
+    AGV.Model.Sdl.runG D k (Sof ids) o g
   let listed := findingIds.filter known.contains
   -- the order of the compose groups: the one under which the model's text is the real text; the
   -- listed findings that are still in the tree: all of them, or (a fix diff applied before its
   -- finding is flipped to fixed) the largest subset under which the model's text is the real text
   let orders := groupOrders S o
   let cands := if listed.length ≤ 6 then subsets listed else [listed, []]
-  let hit := cands.findSome? (fun ids => (orders.find? (fun g => implSdl = runG (defectsOf ids) k S o g.1)).map (fun g => (ids, g)))
+  let hit := cands.findSome? (fun ids => (orders.find? (fun g => implSdl = runG (defectsOf ids) k ids o g.1)).map (fun g => (ids, g)))
   let (mine, gm, gs) := hit.getD (listed, composeGroups (allDirectives S), linkGroups (allDirectives S))
-  let modelK := runG (defectsOf mine) k S o gm
+  let modelK := runG (defectsOf mine) k mine o gm
   let parsed := parseSchema implSdl
   let present := match parsed with
     | some doc => presentBuiltins doc
@@ -192,17 +229,17 @@ def judgeOne (known : List String) (k : Kind) (S : Schema) (o : Opts) (implSdl :
     else if !crateOk then
       (if implSdl = modelK then (2, parserFinding, wantRep, want) else (1, "", String.ofList modelK, want))
     else if implSdl = modelK then (0, "", "", "")
-    else if implSdl = runG Defects.none k S o gm then (0, "", "", "")
+    else if implSdl = runG Defects.none k [] o gm then (0, "", "", "")
     else (1, "", String.ofList modelK, want)
   else if implSdl = modelK then
     -- attribute to the first listed finding whose removal changes the text
-    match mine.find? (fun id => runG (defectsOf (mine.filter (· ≠ id))) k S o gm ≠ modelK) with
+    match mine.find? (fun id => runG (defectsOf (mine.filter (· ≠ id))) k (mine.filter (· ≠ id)) o gm ≠ modelK) with
     | some id => (2, id, String.ofList modelK, want)
     | none =>
       -- several listed defects act together (removing any single one leaves the text unchanged,
       -- e.g. `\"` in a single-line description): attribute to the first listed one, provided the
       -- fully repaired exporter's text does satisfy the property on this case
-      let fixedSdl := runG Defects.none k S o gm
+      let fixedSdl := runG Defects.none k [] o gm
       let fixedDoc := parseSchema fixedSdl
       let fixedWant := render (cDoc (describe o S (allDirectives S) gs
         (match fixedDoc with | some d => presentBuiltins d | none => [])))
@@ -220,13 +257,19 @@ def judge (known : List String) (case impl : String) : JudgeOut :=
     let k : Kind := match sch with
       | .list (.atom "dyn" :: _) => .dynamic
       | _ => .derived
-    match schema sch, os.mapM opts with
-    | some S, some os =>
+    -- declared Rust types: specification side = what they mean; model side = what is registered
+    match rewriteRty {} sch, rewriteRty (rtyDefects [ptrFinding]) sch with
+    | .error e, _ => .viol e e
+    | _, .error e => .viol e e
+    | .ok schS, .ok schP =>
+    match schema schS, schema schP, os.mapM opts with
+    | some S, some SP, some os =>
+      let Sof := fun (ids : List String) => if ids.contains ptrFinding then SP else S
       if os.length ≠ outs.length then .viol "bad-output" "bad-output"
       else
         let rs := (os.zip outs).map (fun p =>
           match p.2 with
-          | .list [.atom "out", .list [.atom "sdl", .str sdl], .list [.atom "crate", c]] => judgeOne known k S p.1 sdl c
+          | .list [.atom "out", .list [.atom "sdl", .str sdl], .list [.atom "crate", c]] => judgeOne known k S Sof p.1 sdl c
           | _ => (3, "", "bad-output", "bad-output"))
         match rs.find? (fun r => r.1 = 3) with
         | some r => .viol (Sexp.quote r.2.2.1.toList) r.2.2.2
@@ -237,7 +280,7 @@ def judge (known : List String) (case impl : String) : JudgeOut :=
             match rs.find? (fun r => r.1 = 1) with
             | some r => .tie (Sexp.quote r.2.2.1.toList) r.2.2.2
             | none => .ok
-    | _, _ => .viol "bad-case" "bad-case"
+    | _, _, _ => .viol "bad-case" "bad-case"
   | _, _ => .viol "bad-case" "bad-case"
 
 end AGV.Drive.C17
